@@ -81,7 +81,7 @@ func ruleMODE1(c *Ctx) {
 		ok := pushCall != nil && setMode != nil && pushCall.End() <= setMode.Pos()
 		okArg := false
 		if pushCall != nil && len(pushCall.Args) == 1 {
-			if usesObj(info, pushCall.Args[0]) == r.modeVar && !reassigned(info, r.fd, r.modeVar) {
+			if usesObj(info, pushCall.Args[0]) == r.modeVar && (!reassigned(info, r.fd, r.modeVar) || localInSyncWithField(info, r.fd, r.modeVar, modeField)) {
 				okArg = true
 			}
 			if fv, _ := selField(info, pushCall.Args[0]); fv == modeField {
@@ -193,18 +193,71 @@ func ruleMODE1(c *Ctx) {
 		if !ok || be.Op != token.EQL || exprString(be.Y) != "nil" {
 			return true
 		}
-		if fv, _ := selField(info, be.X); fv != modeField || len(ifs.Body.List) != 1 {
+		// the nil test is on the field, or on the local copy of it
+		fv, _ := selField(info, be.X)
+		if fv != modeField && usesObj(info, be.X) != r.modeVar {
 			return true
 		}
-		if as, ok := ifs.Body.List[0].(*ast.AssignStmt); ok {
-			first := firstElemOfGlobal(ti, "_lexerModes")
-			if first != "" && exprString(as.Rhs[0]) == first {
-				okInit = true
+		first := firstElemOfGlobal(ti, "_lexerModes")
+		// in the body the field receives the first table, directly or through the local
+		local := map[types.Object]string{}
+		for _, st := range ifs.Body.List {
+			as, ok := st.(*ast.AssignStmt)
+			if !ok || len(as.Lhs) != 1 || len(as.Rhs) != 1 {
+				continue
+			}
+			val := exprString(as.Rhs[0])
+			if o := usesObj(info, as.Rhs[0]); o != nil && local[o] != "" {
+				val = local[o]
+			}
+			if lf, _ := selField(info, as.Lhs[0]); lf == modeField {
+				if first != "" && val == first {
+					okInit = true
+				}
+				continue
+			}
+			if o := usesObj(info, as.Lhs[0]); o != nil {
+				local[o] = val
 			}
 		}
 		return true
 	})
 	c.check(okInit, rule, "template/PushRune/initial-mode", ti.Pos(r.fd.Pos()), "lexing starts in the first table of _lexerModes (mode index 0)", "the initial table is not _lexerModes' first element")
+}
+
+// localInSyncWithField: every assignment to local v (other than its definition from the field) is
+// accompanied, in the same statement list, by an assignment of the same value to the field, so
+// the local still equals the field wherever both are visible.
+func localInSyncWithField(info *types.Info, fd *ast.FuncDecl, v types.Object, field *types.Var) bool {
+	ok := true
+	par := parents(fd)
+	ast.Inspect(fd.Body, func(m ast.Node) bool {
+		as, isAs := m.(*ast.AssignStmt)
+		if !isAs || len(as.Lhs) != 1 || len(as.Rhs) != 1 || usesObj(info, as.Lhs[0]) != v {
+			return true
+		}
+		if _, isSel := ast.Unparen(as.Lhs[0]).(*ast.SelectorExpr); isSel {
+			return true
+		}
+		if rf, _ := selField(info, as.Rhs[0]); rf == field {
+			return true // v := field / v = field
+		}
+		paired := false
+		for _, st := range enclosingList(par, as) {
+			o, isAs2 := st.(*ast.AssignStmt)
+			if !isAs2 || o == as || len(o.Lhs) != 1 || len(o.Rhs) != 1 {
+				continue
+			}
+			if lf, _ := selField(info, o.Lhs[0]); lf == field && (usesObj(info, o.Rhs[0]) == v || sameExpr(o.Rhs[0], as.Rhs[0])) {
+				paired = true
+			}
+		}
+		if !paired {
+			ok = false
+		}
+		return true
+	})
+	return ok
 }
 
 func reassigned(info *types.Info, fd *ast.FuncDecl, v types.Object) bool {
@@ -568,6 +621,14 @@ func ruleMODE3(c *Ctx) {
 		}
 		return true
 	})
+	if !sorted {
+		// names := slices.Sorted(maps.Keys(m))
+		if sc, ok := ast.Unparen(resolveVia(info, localDefs(info, fd), loop.X)).(*ast.CallExpr); ok && fullName(calleeFunc(info, sc)) == "slices.Sorted" && len(sc.Args) == 1 {
+			if kc, ok := ast.Unparen(sc.Args[0]).(*ast.CallExpr); ok && fullName(calleeFunc(info, kc)) == "maps.Keys" {
+				sorted = true
+			}
+		}
+	}
 	c.check(sorted, rule, "ast.Spec.RunPass/sorted-names", p.Pos(loop.Pos()), "mode indices are positions in the lexicographically sorted list of mode names", "the list of mode names is not sorted lexicographically before indices are assigned")
 	// no mode is skipped, except when Build failed (errors reported, generation aborts)
 	skip := ""
@@ -684,7 +745,7 @@ func ruleMODE3(c *Ctx) {
 	// modes() sorts by Index
 	okSort := false
 	for _, u := range ta.Set.Uses {
-		if fl, ok := ast.Unparen(u.Binds["modes"]).(*ast.FuncLit); ok {
+		if fl := funcLitOf(c.Prog, ta.Set.Pkg.TypesInfo, u.Binds["modes"]); fl != nil {
 			ast.Inspect(fl, func(m ast.Node) bool {
 				if call, ok := m.(*ast.CallExpr); ok && sortFuncs[fullName(calleeFunc(ta.Set.Pkg.TypesInfo, call))] && len(call.Args) == 2 {
 					if cmp, ok := call.Args[1].(*ast.FuncLit); ok {
@@ -715,31 +776,43 @@ func ruleMODE4(c *Ctx) {
 		c.unres(rule, "ast.TokenRule.RunPass", "", "function not found")
 	} else {
 		info := pk.TypesInfo
-		// last append to actions.Actions: literal accept of r.Terminal.Index, not inside a loop or if
-		var last *ast.CallExpr
-		par := parents(fd)
-		inspectNoLit(fd.Body, func(n ast.Node) bool {
-			if as, ok := n.(*ast.AssignStmt); ok && len(as.Lhs) == 1 && isField(info, as.Lhs[0], "lexergen/mode", "Actions", "Actions") {
-				if call, ok := as.Rhs[0].(*ast.CallExpr); ok && builtinName(info, call) == "append" {
-					last = call
-				}
-			}
-			return true
-		})
+		// last append to actions.Actions (in RunPass or a method of the rule it delegates to):
+		// literal accept of the receiver's Terminal.Index, not inside a loop or if
 		ok := false
-		if last != nil && len(last.Args) == 2 {
+		for _, sc := range funcScope(p, pk, fd, 2) {
+			owner, isDecl := sc.node.(*ast.FuncDecl)
+			if !isDecl || owner.Recv == nil || recvTypeName(owner) != "TokenRule" || len(owner.Recv.List[0].Names) != 1 {
+				continue
+			}
+			var last *ast.CallExpr
+			par := parents(owner)
+			inspectNoLit(owner.Body, func(n ast.Node) bool {
+				if as, ok := n.(*ast.AssignStmt); ok && len(as.Lhs) == 1 && isField(info, as.Lhs[0], "lexergen/mode", "Actions", "Actions") {
+					if call, ok := as.Rhs[0].(*ast.CallExpr); ok && builtinName(info, call) == "append" {
+						last = call
+					}
+				}
+				return true
+			})
+			if last == nil || len(last.Args) != 2 {
+				continue
+			}
+			okHere := false
 			if cl, isCL := last.Args[1].(*ast.CompositeLit); isCL {
 				t, term := kvOf(cl, "Type"), kvOf(cl, "Terminal")
-				recv := fd.Recv.List[0].Names[0].Name
+				recv := owner.Recv.List[0].Names[0].Name
 				if t != nil && term != nil && usesObj(info, t) != nil && usesObj(info, t).Name() == "ActionAccept" && exprString(term) == recv+".Terminal.Index" {
-					ok = true
+					okHere = true
 				}
 			}
 			for q := par[last]; q != nil; q = par[q] {
 				switch q.(type) {
 				case *ast.RangeStmt, *ast.ForStmt, *ast.IfStmt:
-					ok = false
+					okHere = false
 				}
+			}
+			if okHere {
+				ok = true
 			}
 		}
 		c.check(ok, rule, "ast.TokenRule.RunPass/implicit-accept", p.Pos(fd.Pos()), "a token rule's action list always ends with the accept of its own terminal", "a token rule's action list does not unconditionally end with {ActionAccept, own Terminal.Index}")
